@@ -1,7 +1,7 @@
 """C01 - compiled programs compute what the source says (scalar core, VM)."""
 from ._famprop import make
 
-FAMS = ["E", "S", "D", "R", "M"]
+FAMS = ["E", "S", "D", "R", "M", "G"]
 
 run, replay = make(
     "C01", "ref", FAMS,
